@@ -12,10 +12,12 @@ let parse_event (tok : string) : event =
   match String.split_on_char ':' tok with
   | ["B"; p; i; t] -> EB (nat_of_int (int_field p), nat_of_int (int_field i), nat_of_int (int_field t))
   | "R" :: p :: r :: _ ->
-      let res = match r with "ok" -> Some ROk | "ctx" -> Some RCtxErr | "to" -> Some RTimeout | _ -> None in
+      (* rej: PushTask refused the value with an error of its own (a nil Task): a failed push like a timeout *)
+      let res = match r with "ok" -> Some ROk | "ctx" -> Some RCtxErr | "to" | "rej" -> Some RTimeout | _ -> None in
       ER (nat_of_int (int_field p), res)
   | ["S"; t] -> ES (nat_of_int (int_field t))
   | ["F"; t; "ret"] -> EF (nat_of_int (int_field t), None)
+  | ["F"; t; "pnil"] -> EF (nat_of_int (int_field t), Some O)   (* panic(nil) where recover() returns nil: value id 0 *)
   | ["F"; t; pv] when String.length pv > 1 && pv.[0] = 'p' ->
       EF (nat_of_int (int_field t), Some (nat_of_int (int_field (String.sub pv 1 (String.length pv - 1)))))
   | ["Xb"] -> EXb
@@ -28,6 +30,9 @@ let parse_event (tok : string) : event =
   | ["Z"; n] -> EZ (nat_of_int (int_field n))
   | _ -> raise (Bad tok)
 
+(* --lax-pending-after-wait (C06, C07, C08): after Wait() only PendingTask <= accepted - started is required *)
+let lax = ref false
+
 let failing (m : monitors) : string =
   String.concat "," (List.filter_map (fun (b, name) -> if b then None else Some name)
     [ (m.mo_once, "exactly-once"); (m.mo_started_pushed, "started-only-if-pushed");
@@ -36,12 +41,15 @@ let failing (m : monitors) : string =
       (m.mo_pending, "0<=pending<=laneSize*(queueSize+1)"); (m.mo_lastpanic, "lastpanic-is-a-raised-panic");
       (m.mo_after_wait, "nothing-running-at-or-started-after-Wait"); (m.mo_leak, "no-goroutine-left(Z=0)");
       (m.mo_after_cancel, "push-after-cancel-gets-ctx-error");
-      (m.mo_pending_after_wait, "pending-after-Wait=accepted-minus-started");
+      ((if !lax then true else m.mo_pending_after_wait), "pending-after-Wait=accepted-minus-started");
+      (m.mo_pending_after_wait_le, "pending-after-Wait<=accepted-minus-started");
       (m.mo_push_returns, "every-PushTask-call-returns");
       (m.mo_obs_ids, "status-call-ids-wellformed") ])
 
 let () =
-  let fuel = if Array.length Sys.argv > 2 && Sys.argv.(2) <> "--compare-unreduced" then int_of_string Sys.argv.(2) else 20000 in
+  let fuel = match (if Array.length Sys.argv > 2 then int_of_string_opt Sys.argv.(2) else None) with Some f -> f | None -> 20000 in
+  lax := Array.exists (fun a -> a = "--lax-pending-after-wait") Sys.argv;
+  let monitors_ok m = if !lax then monitors_ok_lax m else monitors_ok m in
   let compare = Array.exists (fun a -> a = "--compare-unreduced") Sys.argv in
   let fuel_n = nat_of_int fuel in
   let cases = ref 0 and specfail = ref 0 and mismatch = ref 0 and accepted = ref 0 and fuel_out = ref 0
@@ -60,7 +68,7 @@ let () =
           if (compare || (!thorough && tag = "HS" && !compared < 400)) && tag <> "M" && monitors_ok m then begin
             incr compared;
             let big = nat_of_int 60000 in
-            let a = accept_history nn qn big true evl and b = accept_history_plain nn qn big evl in
+            let a = accept_history nn qn big true !lax evl and b = accept_history_plain nn qn big !lax evl in
             let cls = function Accepted _ -> 0 | Rejected _ -> 1 | FuelOut _ -> 2 in
             let idx = function Rejected (i, _) -> int_of_nat i | _ -> -1 in
             if cls a = 1 && cls b = 1 then incr both_rej;
@@ -75,7 +83,7 @@ let () =
           else if tag = "M" then incr monitor_only
           else begin
             let t0 = Sys.time () in
-            let res = accept_history nn qn fuel_n true evl in
+            let res = accept_history nn qn fuel_n true !lax evl in
             if Sys.getenv_opt "TL_TIMES" <> None then
               Printf.printf "TIME %.1f %s %d %d %d %s\n" ((Sys.time () -. t0) *. 1000.) tag n q (List.length evl)
                 (match res with Accepted mb -> "acc:" ^ string_of_int (int_of_nat mb) | Rejected _ -> "rej" | FuelOut i -> "fuel@" ^ string_of_int (int_of_nat i));
@@ -84,7 +92,8 @@ let () =
              | Rejected (idx, mb) ->
                  incr mismatch;
                  let i = int_of_nat idx in
-                 Printf.printf "MISMATCH %s ## model-rejects-at-event=%d(%s) belief=%d\nDRIFT %s\n" line i (List.nth evs i) (int_of_nat mb) line
+                 let shown = if !lax then (let w = ref false in List.filter (fun t -> if t = "W" then (w := true; true) else not (!w && String.length t > 1 && t.[0] = 'Q')) evs) else evs in
+                 Printf.printf "MISMATCH %s ## model-rejects-at-event=%d(%s) belief=%d\nDRIFT %s\n" line i (try List.nth shown i with _ -> "?") (int_of_nat mb) line
              | FuelOut idx -> incr fuel_out;
                  Printf.printf "FUEL %d %s\n" (int_of_nat idx) line);
           end
